@@ -97,7 +97,11 @@ func c15SP(c c15Case) *saml2.SAMLServiceProvider {
 // c15Build calls the builder and serialises the result the way the library itself does
 // before putting it on the wire (Document.WriteToString with the document's own settings).
 func c15Build(c c15Case) (out string, panicMsg string, err error) {
-	sp := c15SP(c)
+	return c15BuildOn(c15SP(c), c)
+}
+
+// c15BuildOn builds on a given (possibly already used) instance.
+func c15BuildOn(sp *saml2.SAMLServiceProvider, c c15Case) (out string, panicMsg string, err error) {
 	panicMsg = guard(func() {
 		var doc *etree.Document
 		switch c.Kind {
@@ -333,6 +337,26 @@ func c15Exec(c c15Case) (keys []string, detail, class string) {
 		detail += " | " + strings.Join(hz, ",")
 		return []string{kp + "conforming-parser-would-normalise/" + hz[0]}, detail, "HAZARD"
 	}
+	// second call on the SAME instance, one hour later and with other caller-supplied values:
+	// the output must follow the clock and the arguments of this call
+	if special == "" {
+		c2 := c
+		c2.Str = append([]int(nil), c.Str...)
+		c2.Clock = (c.Clock + 1) % len(c15Clocks)
+		for _, i := range []int{sNameID, sSessionIndex, sStatus, sReqID} {
+			c2.Str[i] = 1 + (c.Str[i]+2)%5 // another value of the alphabet without control characters
+		}
+		sp := c15SP(c)
+		c15BuildOn(sp, c)
+		sp.Clock = world.Clock(c15Clocks[c2.Clock].T)
+		out2, p2, err2 := c15BuildOn(sp, c2)
+		if p2 != "" || err2 != nil {
+			return []string{kp + "second-call-on-same-instance/error-or-panic"}, detail + fmt.Sprintf(" | second call: err=%v panic=%q", err2, p2), "DIFFERS"
+		}
+		if bad2 := c15Judge(c2, out2); len(bad2) > 0 {
+			return []string{kp + "second-call-on-same-instance/output-does-not-follow-this-call"}, detail + " | second call on the same instance: " + strings.Join(bad2, "; "), "DIFFERS"
+		}
+	}
 	return nil, detail, "faithful/" + c.Kind
 }
 
@@ -390,7 +414,7 @@ func c15Run(r *mc.Run) {
 	if r.Thorough() {
 		bound = 3
 	}
-	r.Rule = "full product of kind(3) x signed builder(2) x ForceAuthn x IsPassive x RequestedAuthnContext(4) x NameID format empty x SP issuer empty x string/document builder, plus every combination of <=2 (quick) / <=3 (thorough) deviations over 12 string inputs (16-value special-character alphabet: markup, quotes, whitespace incl. TAB/LF/CR, non-ASCII, ]]>, --, an element-injection payload) and 5 clocks, for 3 kinds x signed/unsigned; oracle = encoding/xml token walk: root, exact attribute set, schema order, exact values, element counts, Signature right after Issuer, no raw CR / attribute TAB,LF; non-trivial = the builder returned a document that was parsed and compared; distinct = distinct case"
+	r.Rule = "full product of kind(3) x signed builder(2) x ForceAuthn x IsPassive x RequestedAuthnContext(4) x NameID format empty x SP issuer empty x string/document builder, plus every combination of <=2 (quick) / <=3 (thorough) deviations over 12 string inputs (16-value special-character alphabet: markup, quotes, whitespace incl. TAB/LF/CR, non-ASCII, ]]>, --, an element-injection payload) and 5 clocks, for 3 kinds x signed/unsigned; oracle = encoding/xml token walk: root, exact attribute set, schema order, exact values, element counts, Signature right after Issuer, no raw CR / attribute TAB,LF; each case is followed by a second call on the same instance one clock step later with other arguments, which must follow that call; non-trivial = the builder returned a document that was parsed and compared; distinct = distinct case"
 	r.Set("string_deviation_bound", bound)
 	cases := c15Cases(r, bound)
 	r.State(len(cases))
